@@ -38,6 +38,9 @@ var c13Mods = []string{"default", "ifThen", "ifThenElse", "jsonEscape", "jsonQuo
 	"math::abs", "math::inc", "math::dec", "math::add", "math::sub", "math::mul", "math::div", "math::mod", "math::sqrt", "math::cbrt", "math::radical", "math::rad", "math::exp", "math::log",
 	"math::factorial", "math::fact", "math::max", "math::min", "math::pow", "def", "if", "ifel", "je", "jq", "he", "le", "ue", "ae", "ce", "jse", "roundp", "ceilp", "floorp"}
 
+var escFamily = map[string]bool{"jsonEscape": true, "jsonQuote": true, "htmlEscape": true, "linkEscape": true, "urlEncode": true, "attrEscape": true, "cssEscape": true, "jsEscape": true,
+	"je": true, "jq": true, "he": true, "le": true, "ue": true, "ae": true, "ce": true, "jse": true}
+
 var c13VCount int
 
 var c13ReCLoop = regexp.MustCompile(`for\s+\w+\s*:?=[^;%]*;`)
@@ -174,6 +177,43 @@ func init() {
 				a, b, c := pick(r, vals), pick(r, vals), pick(r, vals)
 				run("mod", m, "{%= v|"+m+"(a, b) %}", []string{"v", "a", "b"}, []c13Val{a, b, c})
 				run("mod", m, "{%= "+m+"(a, b) %}", []string{"a", "b"}, []c13Val{b, c})
+			}
+		}
+		// integer arguments at and around every size boundary (tables of precomputed powers, digit counts, bit widths),
+		// on a non-integral float, an integer and a string
+		piV := c13Val{"float-3.14159", 3.14159}
+		intV := c13Val{"int-12345", 12345}
+		strV := c13Val{"str-a<b", "a<b"}
+		ks := []int{}
+		for k := 0; k <= 40; k++ {
+			ks = append(ks, k)
+		}
+		ks = append(ks, 63, 64, 65, 127, 128, 129, 255, 256, 257, 307, 308, 309, 310, 1000, -1, -16, -17, -308, -309)
+		for _, m := range c13Mods {
+			if hanging[m] {
+				continue
+			}
+			for _, k := range ks {
+				if k > 12 && escFamily[m] {
+					continue // repeat counts: the output doubles with every pass over an escaped byte, as asked for
+				}
+				for _, v := range []c13Val{piV, intV, strV} {
+					run("mod-arg", m, fmt.Sprintf("{%%= v|%s(%d) %%}", m, k), []string{"v"}, []c13Val{v})
+				}
+			}
+		}
+		for k := 0; k <= 40; k++ {
+			run("node", "tpl", fmt.Sprintf("{%%f.%d= v %%}{%%F.%d= v %%}", k, k), []string{"v"}, []c13Val{piV})
+		}
+		// loop headers in odd spellings: Parse may reject them; what it accepts must end
+		for _, hdr := range []string{"i+-", "i-+", "i+++", "i++-", "i+ +", "+i+", "i**", "i+=1", "i=i+1", "++i", "i", "", "i---", "i--+", "--i"} {
+			// (the bound is chosen so that the loop ends if the step is read as the sign it starts with)
+			conds := []string{"i<3", "i < 3", "i!=3"}
+			if strings.Contains(hdr, "--") {
+				conds = []string{"i>-3", "i != -3"}
+			}
+			for _, cond := range conds {
+				run("node", "loop-step", "{% for i:=0; "+cond+"; "+hdr+" %}{% if i == 999 %}x{% endif %}{% endfor %}|", []string{"v"}, []c13Val{intV})
 			}
 		}
 		for _, h := range c13Helpers {
